@@ -585,6 +585,10 @@ def rule_I3(ctx, rule: str = "I3") -> None:
                 out.add(st.targets[0].id)
         return out
 
+    field_pair_lists = {n.targets[0].id for n in ast.walk(init) if isinstance(n, ast.Assign) and isinstance(n.targets[0], ast.Name) and isinstance(n.value, ast.ListComp)
+                        and len(n.value.generators) == 1 and not n.value.generators[0].ifs and ast.unparse(n.value.generators[0].iter) in field_lists
+                        and isinstance(n.value.generators[0].target, ast.Name) and isinstance(n.value.elt, ast.Tuple) and n.value.elt.elts
+                        and isinstance(n.value.elt.elts[0], ast.Name) and n.value.elt.elts[0].id == n.value.generators[0].target.id}
     name_keyed: set = set()
     for _ in range(2):
         # {field.name: .. for field in fields} / {name: .. for name, meta in by_name.items()}: keyed by every field name too
@@ -597,6 +601,9 @@ def rule_I3(ctx, rule: str = "I3") -> None:
                 if not isinstance(tgt_, ast.Name):
                     continue
                 if it_ in field_lists and isinstance(gen.target, ast.Name) and key_ == f"{gen.target.id}.name":
+                    name_keyed.add(tgt_.id)
+                # [(field, <anything>) for field in fields] enumerates every field as the first item of a pair
+                if it_ in field_pair_lists and isinstance(gen.target, ast.Tuple) and gen.target.elts and isinstance(gen.target.elts[0], ast.Name) and key_ == f"{gen.target.elts[0].id}.name":
                     name_keyed.add(tgt_.id)
                 base_ = it_[:-8] if it_.endswith(".items()") else it_[:-7] if it_.endswith(".keys()") else it_
                 if base_ in name_keyed:
